@@ -525,18 +525,76 @@ func (w *world) seqCallers(names []string) [][2]string {
 		}
 		return false
 	}
-	for _, s := range w.sites(w.modPkgs) {
+	// static references between the module's own functions (for lifting helpers to the entry points that use them)
+	sites := w.sites(w.modPkgs)
+	declOf := map[*types.Func]string{} // function object -> site name
+	for _, s := range sites {
+		if s.decl != nil {
+			if fn, ok := s.pkg.TypesInfo.Defs[s.decl.Name].(*types.Func); ok {
+				declOf[fn] = s.name
+			}
+		}
+	}
+	usedBy := map[string]map[string]bool{} // site name of a helper -> names of the sites that refer to it
+	direct := map[string]map[string]bool{} // site name -> target names referred to directly
+	for _, s := range sites {
 		info := s.pkg.TypesInfo
 		ast.Inspect(s.root, func(n ast.Node) bool {
 			id, ok := n.(*ast.Ident)
 			if !ok {
 				return true
 			}
-			if fn, ok := info.Uses[id].(*types.Func); ok && isTarget(fn) {
-				out[[2]string{s.name, fn.Name()}] = true
+			fn, ok := info.Uses[id].(*types.Func)
+			if !ok {
+				return true
+			}
+			if isTarget(fn) {
+				if direct[s.name] == nil {
+					direct[s.name] = map[string]bool{}
+				}
+				direct[s.name][fn.Name()] = true
+			}
+			if callee, ok := declOf[fn]; ok && callee != s.name {
+				if usedBy[callee] == nil {
+					usedBy[callee] = map[string]bool{}
+				}
+				usedBy[callee][s.name] = true
 			}
 			return true
 		})
+	}
+	// An entry point is where the application hands control to a module: functions nothing else in the module refers to (message-server and query-server
+	// methods are reached through generated code only), block hooks, genesis and the request processors.  A reference found in any other function (a helper a refactoring may
+	// introduce) is attributed to the entry points from which that helper is reachable, so that extracting or inlining a
+	// helper does not change the fact.
+	isEntry := func(name string) bool {
+		return strings.HasSuffix(name, ".InitGenesis") ||
+			strings.HasSuffix(name, ".ExportGenesis") || strings.HasSuffix(name, ".EndBlocker") || strings.HasSuffix(name, ".BeginBlocker") ||
+			strings.HasSuffix(name, "Request") || strings.HasSuffix(name, "ProposalHandler") || len(usedBy[name]) == 0
+	}
+	for site, targets := range direct {
+		roots := map[string]bool{}
+		seen := map[string]bool{}
+		var up func(n string, depth int)
+		up = func(n string, depth int) {
+			if seen[n] {
+				return
+			}
+			seen[n] = true
+			if isEntry(n) || depth > 6 {
+				roots[n] = true
+				return
+			}
+			for c := range usedBy[n] {
+				up(c, depth+1)
+			}
+		}
+		up(site, 0)
+		for r := range roots {
+			for t := range targets {
+				out[[2]string{r, t}] = true
+			}
+		}
 	}
 	return out.sorted()
 }
@@ -773,4 +831,96 @@ func sortedKeys(m map[string]bool) []string {
 	}
 	sort.Strings(out)
 	return out
+}
+
+
+// seqReach: the entry points (functions nothing else in the module refers to, block hooks, genesis, request processors)
+// from which a write of the relayer keeper's Sequence or Randao item is statically reachable — through any chain of
+// helper functions and through the module's keeper interfaces.  Rows: (entry point, "Sequence.Set" | "Randao.Set" ...).
+// Unlike seqWriters/seqCallers this does not change when a helper is extracted or inlined.
+func (w *world) seqReach(storeWriters [][3]string) [][2]string {
+	sites := w.sites(w.modPkgs)
+	declOf := map[*types.Func]string{}
+	methodsByName := map[string][]*types.Func{}
+	for _, s := range sites {
+		if s.decl == nil {
+			continue
+		}
+		if fn, ok := s.pkg.TypesInfo.Defs[s.decl.Name].(*types.Func); ok {
+			declOf[fn] = s.name
+			if sig, ok := fn.Type().(*types.Signature); ok && sig.Recv() != nil {
+				methodsByName[fn.Name()] = append(methodsByName[fn.Name()], fn)
+			}
+		}
+	}
+	usedBy := map[string]map[string]bool{}
+	edge := func(callee, caller string) {
+		if callee == caller {
+			return
+		}
+		if usedBy[callee] == nil {
+			usedBy[callee] = map[string]bool{}
+		}
+		usedBy[callee][caller] = true
+	}
+	for _, s := range sites {
+		info := s.pkg.TypesInfo
+		ast.Inspect(s.root, func(n ast.Node) bool {
+			id, ok := n.(*ast.Ident)
+			if !ok {
+				return true
+			}
+			fn, ok := info.Uses[id].(*types.Func)
+			if !ok {
+				return true
+			}
+			if callee, ok := declOf[fn]; ok {
+				edge(callee, s.name)
+				return true
+			}
+			// a method of an interface declared in the module: every module type that implements it may stand behind it
+			sig, ok := fn.Type().(*types.Signature)
+			if !ok || sig.Recv() == nil || fn.Pkg() == nil || !w.inModule(fn.Pkg().Path()) {
+				return true
+			}
+			iface, ok := sig.Recv().Type().Underlying().(*types.Interface)
+			if !ok {
+				return true
+			}
+			for _, m := range methodsByName[fn.Name()] {
+				rt := m.Type().(*types.Signature).Recv().Type()
+				if types.Implements(rt, iface) || types.Implements(types.NewPointer(deref(rt)), iface) {
+					edge(declOf[m], s.name)
+				}
+			}
+			return true
+		})
+	}
+	isEntry := func(name string) bool {
+		return strings.HasSuffix(name, ".InitGenesis") || strings.HasSuffix(name, ".ExportGenesis") || strings.HasSuffix(name, ".EndBlocker") ||
+			strings.HasSuffix(name, ".BeginBlocker") || strings.HasSuffix(name, "Request") || strings.HasSuffix(name, "ProposalHandler") || len(usedBy[name]) == 0
+	}
+	out := set2{}
+	for _, e := range storeWriters {
+		if e[0] != "relayer" || !(strings.HasPrefix(e[1], "Sequence.") || strings.HasPrefix(e[1], "Randao.")) {
+			continue
+		}
+		seen := map[string]bool{}
+		var up func(n string, depth int)
+		up = func(n string, depth int) {
+			if seen[n] {
+				return
+			}
+			seen[n] = true
+			if isEntry(n) || depth > 8 {
+				out[[2]string{n, e[1]}] = true
+				return
+			}
+			for c := range usedBy[n] {
+				up(c, depth+1)
+			}
+		}
+		up(e[2], 0)
+	}
+	return out.sorted()
 }
